@@ -30,7 +30,7 @@ PROPS = {
         "engines": [storm()],
         "rule": "each evaluation is one (instruction, bank) pair compared bit-exactly (I80F48 bits): change of bank totals vs sum of changes of all positions in the instruction, plus the closed-world global sum at every commit; about a third of the worlds also carry Kamino / Solend / Drift pass-through banks so that venue deposits / withdrawals and their closures are reconciled too; distinct = (instruction kind, closures, sign of total change, dust abandoned) tuples",
         "assumptions": COMMON_ASSUMPTIONS + ["whole-account close may abandon < 1 share per side (the program's empty threshold); position closure < 0.0001 unit (DESIGN 9 F6)"],
-        "floors": {"quick": {"scen.wipeout_collateral_fully_seized": 4, "ix_ok/Deposit": 500, "C02.closures/Withdraw": 20, "C02.closures/Repay": 10}},
+        "floors": {"quick": {"C16.liquidations_by_debtor_of_collateral_bank": 4, "scen.wipeout_collateral_fully_seized": 2, "ix_ok/Deposit": 500, "C02.closures/Withdraw": 20, "C02.closures/Repay": 10}},
     },
     "C03": {
         "engines": [storm()],
@@ -60,7 +60,7 @@ PROPS = {
         "engines": [storm("scen", sq=12, st=12), storm("venue", arg="C04:venue", sq=4, st=4)],
         "rule": "each evaluation is one accepted borrow/withdraw (committed or simulated) or one health rejection, judged against an independent exact-rational initial-health recomputation from raw bytes and the presented oracle accounts; boundaries are located by bisection with state-preserving simulations so both neighbours of the accept/reject boundary are judged; the venue engine does the same in worlds whose collateral sits in Kamino / Solend / Drift pass-through banks (reference price = oracle price x exact venue exchange rate); distinct = (accept/reject, kind, #assets, #liabs, e-mode used, cap active, bad collateral oracle, borderline)",
         "assumptions": COMMON_ASSUMPTIONS + ["a health rejection is only judged when the caller presented the canonical risk accounts (otherwise it is attributable to mis-presented accounts)"],
-        "floors": {"quick": {"pulse.health_signs_compared/initial": 100, "C04.accepted/Borrow": 200, "C04.accepted/Withdraw": 200, "C04.rejected_for_health/Borrow": 200, "scen.withdraw_boundary_found": 20, "C04.accepted/KaminoWithdraw": 100, "C04.accepted/SolendWithdraw": 100, "C04.accepted/DriftWithdraw": 100, "venue.withdraw_boundary_found": 20}},
+        "floors": {"quick": {"scen.staked_collateral_rounds": 20, "pulse.health_signs_compared/initial": 100, "C04.accepted/Borrow": 200, "C04.accepted/Withdraw": 200, "C04.rejected_for_health/Borrow": 200, "scen.withdraw_boundary_found": 20, "C04.accepted/KaminoWithdraw": 100, "C04.accepted/SolendWithdraw": 100, "C04.accepted/DriftWithdraw": 100, "venue.withdraw_boundary_found": 20}},
     },
     "C05": {
         "engines": [storm("scen", sq=12, st=12), storm("venue", arg="C05:venue", sq=4, st=4)],
@@ -72,7 +72,7 @@ PROPS = {
         "engines": [storm("scen")],
         "rule": "each evaluation is one accepted bankruptcy judged on equity (unweighted, isolated-tier deposits at full value), signer, insurance-first, pro-rata socialisation, kill state, account disabling; distinct = (regime, killed, permissionless, decimals, transfer fee)",
         "assumptions": COMMON_ASSUMPTIONS,
-        "floors": {"quick": {"pulse.health_signs_compared/equity": 30, "C07.bankruptcies_accepted": 40, "C07.regime/partial": 3, "C07.regime/fully_insured": 3, "scen.bankruptcy_price_boundary_found": 15}},
+        "floors": {"quick": {"scen.wipeout_debt_equal_to_deposits": 5, "pulse.health_signs_compared/equity": 30, "C07.bankruptcies_accepted": 40, "C07.regime/partial": 3, "C07.regime/fully_insured": 3, "scen.bankruptcy_price_boundary_found": 15}},
     },
     "C10": {
         "engines": [storm("scen")],
@@ -115,7 +115,7 @@ PROPS = {
         "engines": [storm("matrix")],
         "rule": "even shards: matrix over twin groups - every listed instruction x every signer identity (authority, stranger, 7 group roles, fee admin, other group's admin, no signature) x every single substitution of a bound account (foreign group twin, sibling bank's vault/authority, clone owned by another program, wrong sysvar / token program, for pass-through banks the venue reserve / obligation / program and the reserve or price account that values the collateral in the risk accounts), plus coherent substitutions (a foreign group's bank presented with all of its own vaults and oracle accounts); a cell counts only when its positive control succeeded; odd shards: attribution monitor over the administrative storm (every change of an account's balances / every role-signed instruction must be attributable to an entitled signer); distinct = (cell kind, instruction, identity or substitution, outcome)",
         "assumptions": COMMON_ASSUMPTIONS + ["the table of entitled signers and bound slots is written from the statement and the instruction doc comments (DESIGN App. A)"],
-        "floors": {"quick": {"C08.empty_bracket_committed": 50, "C08.matrix_foreign_group_with_its_role_holder_cells": 1000, "C08.matrix_controls_ok": 300, "C08.matrix_signer_cells": 3000, "C08.matrix_substitution_cells": 1000, "admin.role_rotations": 20, "fidelity.group_configure_requests_compared": 100}},
+        "floors": {"quick": {"C08.matrix_foreign_group_with_its_settings_cells": 50, "C08.empty_bracket_committed": 50, "C08.matrix_foreign_group_with_its_role_holder_cells": 1000, "C08.matrix_controls_ok": 300, "C08.matrix_signer_cells": 3000, "C08.matrix_substitution_cells": 1000, "admin.role_rotations": 20, "fidelity.group_configure_requests_compared": 100}},
         "exhaustive_note": "exhaustive over the listed cases x identities x substitutions per world",
     },
     "C12": {
